@@ -78,6 +78,26 @@ CHECKS = {
                      "status == !has_errors, CLI exits 1 with messages. Exhaustive inside the bounds, nothing beyond.",
                 note="trusted: the harness' catch_unwind/watchdog; texts beyond the bounds are only represented by repository "
                      "files and their edits"),
+    "C01": dict(level="exploration", engine="progspace", design="5/C01",
+                technique="enumeration of program families (operator x boundary operands x provenance, expression shapes, control "
+                          "flow, data, collections, calls, compositions) executed on both code generators against a reference evaluator",
+                text="Every case of seven generator families -- all integer/float operators over boundary operand pairs in constant, "
+                     "variable and mixed provenance; all expression shapes up to the depth bound with evaluation-order tracers; all "
+                     "statement blocks of the control-flow grammar; struct/tuple/enum/class/trait/generic data shapes; Vec/Array/"
+                     "HashMap/String operation sequences; call shapes; pairwise family compositions -- is compiled with the baseline "
+                     "and the optimizing generator and run; stdout and the ending (normal or the specific trap) of every case must "
+                     "equal the generator's own reference evaluation, case by case.",
+                note="the reference evaluator is the generator's Python model of the documented semantics; unspecified behaviours "
+                     "(argument aliasing through assignment inside arguments) are not generated"),
+    "C13": dict(level="exploration", engine="progspace", design="5/C13",
+                technique="enumeration of frame shape x recursion kind x thread and of allocation entry x element type x hostile length, "
+                          "executed on both code generators and the collectors",
+                text="Unbounded recursion with every frame shape (locals, by-value structs up to 8^j words, many arguments, expression "
+                     "temporaries) x recursion kind (direct, mutual, lambda, trait object, generic) x thread (main, spawned, nested) "
+                     "must end with status 107 'stack overflow' (and the same program bounded to a small depth finishes); every "
+                     "allocation entry point x element type x hostile length must end in a documented trap identically on both "
+                     "generators; live growth past a 16M heap must trap 106; garbage-only allocation must finish.",
+                note="the trap text of other kinds is C14's"),
     "C14": dict(level="exploration", engine="progspace", design="5/C14",
                 technique="enumeration of trap kind x callee-shape chains with generator-known frame lists, executed on both code generators",
                 text="13 trap kinds x 7 callee shapes (plain, generic, method, static, lambda, trait-object thunk, inlinable leaf) x "
